@@ -83,5 +83,7 @@ func checkC06(r *Run) {
 	for i := 0; i < pick(r, 2, 6); i++ {
 		exploreConc(r, concGenFor(r, rng, 2, 1, i+int(r.Seed)), "reader-wait", pick(r, 5*time.Minute, 30*time.Minute))
 	}
+	runWritersVsHeldReaders(r)
+	r.assumption("a write that does not return within 3 s while a read is held in flight is a wait")
 	r.assumption("a read that does not complete within 5 s while a writer is parked, and completes once the writer is released, is a wait")
 }
